@@ -145,6 +145,10 @@ func c18CheckRef(c *core.Ctx, s string) {
 			c.Violation("C18/ref-unmarshal-variant", fmt.Sprintf("Ref does not unmarshal %s to %q (got %q, err %v)", alt, s, y, err), map[string]interface{}{"s": s})
 		}
 	}
+	// both reference types agree with IsValidRID on which strings are resource ids
+	if g, w := res.SoftRef(s).IsValid(), ref.ValidRID(s); g != w || res.Ref(s).IsValid() != w || res.IsValidRID(s) != w {
+		c.Violation("C18/ref-isvalid", fmt.Sprintf("SoftRef(%q).IsValid()=%v Ref.IsValid()=%v IsValidRID=%v, reference grammar says %v", s, g, res.Ref(s).IsValid(), res.IsValidRID(s), w), map[string]interface{}{"s": s})
+	}
 	if strings.ContainsAny(s, "\"\\\n<\u0001") || len(s) != len([]rune(s)) {
 		c.Distinct("r:" + s)
 	}
@@ -238,6 +242,21 @@ func c18DataValue(c *core.Ctx, p c18Params) {
 			c.Distinct("dv:" + string(plain))
 		} else if !reflect.DeepEqual(shape, jsonNorm(v)) {
 			c.Violation("C18/datavalue-primitive", fmt.Sprintf("MarshalDataValue(%s) = %s, want the bare primitive", plain, b), desc)
+		}
+		// the service side's data value type marshals every value wrapped (the protocol
+		// allows the wrapper around primitives too) and the client unwraps it again
+		if db, err := json.Marshal(res.NewDataValue(v)); err != nil {
+			c.Violation("C18/datavalue-marshal-error", "marshalling res.NewDataValue(v) failed: "+err.Error(), desc)
+		} else {
+			var m map[string]interface{}
+			var back, bare interface{}
+			if !isObj && !isArr && json.Unmarshal(db, &bare) == nil && reflect.DeepEqual(bare, jsonNorm(v)) {
+				// a primitive marshalled bare (what the type's documentation describes) is as good
+			} else if json.Unmarshal(db, &m) != nil || len(m) != 1 || !reflect.DeepEqual(m["data"], jsonNorm(v)) {
+				c.Violation("C18/datavalue-wrap:NewDataValue", fmt.Sprintf("res.NewDataValue(%s) marshals to %s, want {\"data\":...}", plain, db), desc)
+			} else if err := resprot.UnmarshalDataValue(db, &back); err != nil || !reflect.DeepEqual(back, jsonNorm(v)) {
+				c.Violation("C18/datavalue-roundtrip:NewDataValue", fmt.Sprintf("res.NewDataValue(%s) -> %s -> %s (err %v)", plain, db, jsonStr(back), err), desc)
+			}
 		}
 		var out interface{}
 		if err := resprot.UnmarshalDataValue(b, &out); err != nil {
